@@ -23,8 +23,9 @@ CONSTANTS
   BugZeroCostHeld = FALSE
   SplitOnlyAtEnqueue = FALSE
   DropOnClose = FALSE
+  ForwardInitWin = FALSE
   WithSettings = TRUE
-INVARIANTS WithinGrant WithinMaxFrame NoEligibleQueued LedgerAgrees PrefixFidelity Conserved HpackInOrder
+INVARIANTS NotStarved WithinGrant WithinMaxFrame NoEligibleQueued LedgerAgrees PrefixFidelity Conserved HpackInOrder
 CONSTRAINT HWM
 POSTCONDITION Accepted
 CHECK_DEADLOCK FALSE
